@@ -1657,8 +1657,13 @@ ANendaccess(int32 ann_id /* IN: annotation id */)
 {
     int ret_value = SUCCEED;
 
-    (void)ann_id;
+    /* there is nothing to release (annotation ids live until ANend), but a value that is
+       not a live annotation id is an error here like in every other call */
+    HEclear();
+    if (HAatom_group(ann_id) != ANIDGROUP || HAatom_object(ann_id) == NULL)
+        HGOTO_ERROR(DFE_ARGS, FAIL);
 
+done:
     return ret_value;
 } /* ANendaccess() */
 
